@@ -154,7 +154,7 @@ def unserialize_unit(reg, common):
         state.assume(disj(ok))
         ex.raise_if(state, z3.Bool(fresh_name("parse_protocol_error")), "ProtocolError")
         ex.raise_if(state, z3.Bool(fresh_name("parse_uri_error")), "InvalidUriError")
-        return VOpaque(fresh_name("message"))
+        return VInt(z3.Int(fresh_name("message")))       # a handle for the message object parse() built
     reg.external("codec.unserialize", ext_codec_unserialize)
     reg.external("typemap.get", ext_map_get)
     reg.external("klass.parse", ext_klass_parse)
@@ -172,7 +172,7 @@ def unserialize_unit(reg, common):
                  ensures=["type(result) == list", "implies(isBinary is not None, isBinary == self._serializer.BINARY)"],
                  raises={"ProtocolError": "True", "InvalidUriError": "True"},
                  loops={"iter:raw_msgs": {"index": "_k", "invariant": ["type(msgs) == list"], "modifies": ["msgs"],
-                                          "vars": {"msgs": "list:any"}, "pure_calls": True}},
+                                          "vars": {"msgs": "list:int"}, "pure_calls": True}},
                  **dict(common, spec_module="specs.wampuri"))
 
 
